@@ -422,9 +422,15 @@ func c02Seed(tg *txnGen) []TOp {
 func driveC02(o opts) error {
 	p := txnProfile{prop: "C02", ncases: 120, ntxn: 6, maxOps: 5, shard: 30,
 		schemas: func(g *gen.G, i int) dyn.Schema { return c02Schema() },
-		tune:    func(tg *txnGen) { tg.pInvalid = 0.45; tg.dangling = 0.12; tg.pSelect = 0.1; tg.pWait = 0.1; tg.pool = 3 },
-		oracle:  oracleAtomic,
-		seed:    c02Seed,
+		tune: func(tg *txnGen) {
+			tg.pInvalid = 0.45
+			tg.dangling = 0.12
+			tg.pSelect = 0.1
+			tg.pWait = 0.1
+			tg.pool = 3
+		},
+		oracle: oracleAtomic,
+		seed:   c02Seed,
 		nontriv: func(ops []TOp, ob tObs) bool {
 			// the failing operation is not the first and an earlier one changed a row
 			for i, r := range ob.Results {
@@ -453,6 +459,7 @@ func driveC02(o opts) error {
 	if o.tier == "thorough" {
 		p.ncases, p.ntxn, p.maxOps = 4000, 10, 7
 	}
+	p.extra = c02Regressions
 	return runTxnHistories(o, p)
 }
 
@@ -503,6 +510,7 @@ func driveC06(o opts) error {
 	if o.tier == "thorough" {
 		p.ncases, p.ntxn = 4000, 14
 	}
+	p.extra = c06Regressions
 	return runTxnHistories(o, p)
 }
 
